@@ -12,7 +12,7 @@ import (
 // sizeAllowed: the size tests present in the tree as read (function -> compared term -> reason). Each
 // is a shape test on a split/argument list whose both outcomes the owning rules inspect, or an arity guard.
 var sizeAllowed = map[string]string{
-	"ParsePipe/len(strings.Split(..)) == 2":     "a pipe segment `name|arg` splits in two parts; both outcomes are selector-grammar shapes (C09 not-decided clause: grammar agreement)",
+	"ParsePipe/len(strings.Split(..)) == 2":      "a pipe segment `name|arg` splits in two parts; both outcomes are selector-grammar shapes (C09 not-decided clause: grammar agreement)",
 	"ParseSelector/len(strings.SplitN(..)) == 2": "`selector=>function` splits in at most two parts (SplitN n=2): the size cannot exceed the constant",
 	"ReadRange/len(strings.Split(..)) != 2":      "a range `(a:b)` has exactly two bounds; any other count is rejected with an error",
 }
